@@ -4,7 +4,9 @@ from common import *
 
 ID = "C10"
 GEN = []
-THEOREMS = []   # filled below
+THEOREMS = ["C10_fraction_len", "C10_refuted_precision0", "C10_sig16", "C10_refuted_pow10", "C10_refuted_1e15",
+            "C10_syntax", "C10_no_trailing_zero", "C10_render_parses", "C10_nonfinite", "C10_calc_wrap",
+            "C10_whole_digits", "C10_round_partial"]
 COQ_HEADER = ("From Coq Require Import List ZArith NArith.\nFrom RV Require Import Run.C10.\n"
               "Import ListNotations.\nLocal Open Scope Z_scope.")
 RUN_EXPR = "Run.C10.run"
@@ -17,8 +19,8 @@ EXHAUSTIVE = {"quick": False, "thorough": False}
 TRUSTED = ["Spec/DecRound.v: exact rational reading of a decimal numeral and of a binary64; syntax / places / rounding predicates written from the property text",
            "libm oracle: `whole.log10().ceil()` is modelled by the exact function clog10 (least k with 10^k >= whole); the two can differ only for 10^15 < whole <= 10^15+2 where both give the same text; validated by correspondence on all powers of ten and neighbours on every run",
            "Rust std `Display for f64` on integer values is modelled as: exact digits below 2^53, shortest round-trip digits (ties up) zero-padded above; validated by correspondence",
-           "C10_syntax / C10_no_trailing_zero are proved for every instance of the digit loop whose float primitives satisfy the contract `prims_ok` (digits of |f*10| in 0..9, rounded last digit in 0..10, an exact integer product is a non-zero digit); for the Flocq binary64 instance this contract is validated by the bit-exact correspondence, not proved"]
-ASSUMPTIONS = ["rounding accuracy for all doubles is not proved (C10_round_partial covers the loop-free case); it is decided on the explored inputs against the exact rational reference"]
+           "C10_no_trailing_zero / C10_render_parses are proved for every instance of the digit loop whose float primitives satisfy the contract `prims_ok` (digits of |f*10| in 0..9, rounded last digit in 0..10, an exact integer product is a non-zero digit); for the Flocq binary64 instance this contract is validated by the bit-exact correspondence, not proved"]
+ASSUMPTIONS = ["rounding accuracy for all doubles is not proved (C10_round_partial covers doubles without fraction); it is decided on the explored inputs against the exact rational reference"]
 
 
 def bits(x):
@@ -126,7 +128,7 @@ def gen_cases(ctx, tier):
             for add in (0.5, 1.5, 2.5, 0.123456789012345678):
                 cases.append({"kind": 0, "comp": False, "prec": 20, "bits": bits(float(f"1e{k}") + add)})
                 cases.append({"kind": 0, "comp": False, "prec": 20, "bits": bits(float(f"1e{k}") - add)})
-    n = 2000 if tier == "quick" else 60000
+    n = 1500 if tier == "quick" else 60000
     for b in gen_bits(rng, n):
         p = rng.choice([0, 1, 2, 3, 5, 10, 10, 10, 15, 16, 17, 20]) if rng.random() < 0.6 else rng.randrange(0, 21)
         cases.append({"kind": 0, "comp": rng.random() < 0.5, "prec": p, "bits": b})
@@ -208,8 +210,8 @@ def judge(c, io, r):
     return {
         "corr": corr == 1,
         "clauses": [("syntax", s == 1, None), ("fraction-length", l == 1, K_LEN[kl]),
-                    ("significant-digits", g == 1, K_SIG[kg]), ("rounding", rd == 1, K_RND[kr]), ("rounding-error-bounded", bd == 1, None),
-                    ("non-finite", nf == 1, None)],
+                    ("significant-digits", g == 1, K_SIG[kg]), ("rounding", rd == 1, K_RND[kr]),
+                    ("rounding-error-bounded", bd == 1, None), ("non-finite", nf == 1, None)],
         "nontrivial": bool(fin) and (x is None or (abs(x) < 2.0**53 and x != int(x))),
         "tags": ["finite" if fin else "nonfinite", "kind%d" % c["kind"], "p%d" % c["prec"]],
         "show": show(c), "detail": show(c),
@@ -217,24 +219,23 @@ def judge(c, io, r):
 
 
 def shrink(c):
+    # strictly decreasing candidates only (precision down, style to expanded, fewer digits)
     if c["kind"] != 0:
         return
-    for p in (0, 1, 10, 20):
-        if p != c["prec"]:
+    for p in (0, 1, 10):
+        if p < c["prec"]:
             yield dict(c, prec=p)
     if c["comp"]:
         yield dict(c, comp=False)
     x = fl(c["bits"])
     if x == x and abs(x) != float("inf"):
-        for nd in (3, 6, 9, 12):
+        cur = len(repr(x))
+        for nd in (3, 6, 9):
             y = float(f"%.{nd}g" % x)
-            if y != x:
+            if y != x and len(repr(y)) < cur:
                 yield dict(c, bits=bits(y))
+                break
 
-
-THEOREMS = ["C10_fraction_len", "C10_refuted_precision0", "C10_sig16", "C10_refuted_pow10", "C10_refuted_1e15",
-            "C10_syntax", "C10_no_trailing_zero", "C10_render_parses", "C10_nonfinite", "C10_calc_wrap",
-            "C10_whole_digits", "C10_round_partial"]
 
 LEVEL_TEXT = ("proof: the digit loop of Formatted<Number>::fmt is modelled once over abstract float primitives and "
               "instantiated at Flocq binary64 (bit-exact correspondence with Number::format on every run); for ALL "
@@ -245,5 +246,5 @@ LEVEL_TEXT = ("proof: the digit loop of Formatted<Number>::fmt is modelled once 
 LEVEL_NOTE = ("trusted: Coq kernel+vm_compute, Flocq binary64, harness, Spec/DecRound.v, libm log10 and std Display "
               "oracles as stated; digit-range contract of the binary64 primitives validated by correspondence, not proved; "
               "rounding accuracy only explored against the exact rational reference (partial); refuted: precision 0 "
-              "(F13), 10^k whole part (F14), |x| >= 10^15 non-integer")
+              "(F13), 10^k whole part (F14), |x| >= 10^15 non-integer, near-tie misrounding (F30)")
 TECHNIQUE = "Coq proof (structural induction on the digit loop, abstract-primitive contract) + differential correspondence + exact rational oracle"
